@@ -424,6 +424,15 @@ def run_history(case, rec):
                                     f"Get_results({i}) [{S['where']}]: extra data load_level={r.get('load_level')!r}, {S['extra']!r} was saved", **sig)
                     _equal_fields(rec, ad.fields(simu), before, "get_results_pure", f"Get_results({i}) altered the simulation state", sig)
                     _equal_fields(rec, _mesh_sig(simu.mesh), mesh_before, "get_results_pure", f"Get_results({i}) altered the mesh", sig)
+                    # what was read is the caller's: the arrays of the returned dict are overwritten (a post-processing done in
+                    # place); the stored iteration and the live state must not follow
+                    for v_ in r.values():
+                        if isinstance(v_, np.ndarray) and v_.dtype.kind == "f" and v_.flags.writeable:
+                            v_[...] = 12345.0
+                    r_again = simu.Get_results(i)
+                    _equal_fields(rec, r_again, _stored(S, r_again, kind), "get_results_not_shared",
+                                  f"Get_results({i}) [{S['where']}] after the arrays of an earlier read were overwritten in place", sig)
+                    _equal_fields(rec, ad.fields(simu), before, "get_results_not_shared", f"the live state follows the arrays returned by Get_results({i})", sig)
                     nontrivial |= old
                 else:
                     if name == "result_iter":
